@@ -84,6 +84,12 @@ def check(ctx):
                 bad("matches_service", "wrong-result", case, exp, got)
             if got != sb.matches_service(sa):
                 bad("matches_service", "asymmetric", case, got, not got)
+            # fields the laws do not mention (declared eventgroups, options) must not decide the result
+            for ega, egb in ((frozenset({5}), frozenset()), (frozenset({5, 6}), frozenset({7})), (frozenset(), frozenset({5}))):
+                g2 = cfg.Service(*a, eventgroups=ega, options_1=(OPT_A,)).matches_service(cfg.Service(*b, eventgroups=egb))
+                n += 1
+                if g2 != exp:
+                    bad("matches_service", "depends-on-eventgroups-or-options", dict(a=a, b=b, eventgroups=(sorted(ega), sorted(egb))), exp, g2)
             # filter a vs offer entry b (wildcard honoured on the filter only)
             got_o = sa.matches_offer(entry(T.OfferService, b))
             exp_o = ref_match(a, b, True, False)
